@@ -74,7 +74,8 @@ Init ==
 ChooseCfg ==
     /\ ph = "cfg"
     /\ \E ps \in ProtoSets, cs \in CodecSeqs, zs \in CompSeqs :
-         scn' = [scn EXCEPT !.cfg.protos = ps, !.cfg.codecs = cs, !.cfg.comps = zs]
+         \* (chunks mode: a 1 MiB message limit, so that a mis-framed length is refused instead of being allocated)
+         scn' = [scn EXCEPT !.cfg.protos = ps, !.cfg.codecs = cs, !.cfg.comps = zs, !.cfg.L = IF Mode = "chunks" THEN 1048576 ELSE @]
     /\ ph' = IF Mode = "reject" THEN "reject" ELSE "client"
     /\ UNCHANGED m
 
